@@ -94,6 +94,41 @@ class CallableInstance:
 callable_instance = CallableInstance('ci')
 
 
+class Meth:
+  """Instance methods: `Meth.apply` (plain function, self is the first positional parameter)
+  and `meth_instance.apply` (bound method, self stripped) share one __func__ but have
+  different signatures; `MethSub.cmake` and `Meth.cmake` are distinct bound classmethods of
+  one function."""
+
+  def __init__(self, label):
+    self.label = label
+
+  @property
+  def vt_bound(self):
+    return {'label': self.label}
+
+  def apply(self, x=1, y=10, *va, k='K'):
+    return _r.rec('Meth.apply', locals())
+
+  def two_required(self, a, b, c=3):
+    return _r.rec('Meth.two_required', locals())
+
+  @classmethod
+  def cmake(cls, a, b='cm', *va):
+    return _r.rec('Meth.cmake', dict(locals(), cls=cls.__name__))
+
+  def __repr__(self):
+    return f'Meth({self.label!r})'
+
+
+class MethSub(Meth):
+  pass
+
+
+meth_instance = Meth('m1')
+meth_instance2 = MethSub('m2')
+
+
 def target3(a, b=2, *va, k='K', **vk):
   return _r.rec('target3', locals())
 
